@@ -94,3 +94,54 @@ CONTRACTS[M + "remove_note"] = dict(
                   "list_same(self.notes, [n for n in old_notes if pitch(n) != pitch(note)])")])],
     notes="domain: containers of 0..3 notes with arbitrary names, octaves and order",
     properties=["C12"], battery="nc_remove")
+
+# consonance predicates of a container: true exactly when EVERY pair of notes (in container order, lower index first)
+# satisfies the pairwise predicate, stated here by the semitone distance of the two names
+_PAIRS = "[(self.notes[i].name, self.notes[j].name) for i in range(len(self.notes)) for j in range(i + 1, len(self.notes))]"
+
+
+def _pairs_expr(k):
+    return "[" + ", ".join("(self.notes[%d].name, self.notes[%d].name)" % (i, j) for i in range(k) for j in range(i + 1, k)) + "]"
+
+
+_PRED = {
+    "is_consonant": ("(semis(p[0], p[1]) in (0, 7, 3, 4, 8, 9) or (include_fourths and semis(p[0], p[1]) == 5))", True),
+    "is_perfect_consonant": ("(semis(p[0], p[1]) == 0 or semis(p[0], p[1]) == 7 or (include_fourths and semis(p[0], p[1]) == 5))", True),
+    "is_imperfect_consonant": ("(semis(p[0], p[1]) in (3, 4, 8, 9))", False),
+}
+# is_dissonant is the complement of is_consonant with the flag inverted: SOME pair is dissonant (a fourth counts as
+# dissonant exactly when include_fourths is set) -- the reading the C12 driver uses as well; 'every pair dissonant' is
+# not what the code computes and not what a chord being dissonant means
+_DIS = "(semis(p[0], p[1]) in (0, 7, 3, 4, 8, 9) or ((not include_fourths) and semis(p[0], p[1]) == 5))"
+for _nm, (_pp, _flag) in _PRED.items():
+    _params = {"self": "NoteContainer"}
+    if _flag:
+        _params["include_fourths"] = "bool"
+    CONTRACTS[M + _nm] = dict(
+        params=_params, requires=[("valid-names", "all([is_name(n.name) for n in self.notes])"), ("at-most-4-notes", "len(self.notes) <= 4")],
+        returns="bool",
+        cases=[dict(when="len(self.notes) == %d" % k, returns="bool",
+                    ensures=[("true-exactly-when-every-pair-satisfies-the-pairwise-predicate",
+                              "result == all([%s for p in %s])" % (_pp, _pairs_expr(k)))]) for k in range(0, 5)],
+        modifies=[], split=[{"field_types": {"self.notes": "[" + ",".join(["Note"] * k) + "]"}} for k in range(0, 5)],
+        split_is_domain=True, inline_callees=[M + "_consonance_test"],
+        notes="domain: containers of 0..4 notes (0..6 pairs), arbitrary names",
+        properties=["C12"], battery="nc_flag" if _flag else "nc_only")
+
+CONTRACTS[M + "is_dissonant"] = dict(
+    params={"self": "NoteContainer", "include_fourths": "bool"},
+    requires=[("valid-names", "all([is_name(n.name) for n in self.notes])"), ("at-most-4-notes", "len(self.notes) <= 4")],
+        returns="bool",
+    cases=[dict(when="len(self.notes) == %d" % k, returns="bool",
+                ensures=[("true-exactly-when-some-pair-is-dissonant",
+                          "result == (not all([%s for p in %s]))" % (_DIS, _pairs_expr(k)))]) for k in range(0, 5)],
+    modifies=[], split=[{"field_types": {"self.notes": "[" + ",".join(["Note"] * k) + "]"}} for k in range(0, 5)],
+    split_is_domain=True, inline_callees=[M + "_consonance_test", M + "is_consonant"],
+    notes="domain: containers of 0..4 notes, arbitrary names", properties=["C12"], battery="nc_flag")
+
+CONTRACTS[M + "get_note_names"] = dict(
+    params={"self": "NoteContainer"}, returns="list[any]", modifies=[],
+    ensures=[("every-name-once-in-order-of-first-occurrence", "list_same(result, uniq_in_order([n.name for n in self.notes]))"),
+             ("fresh-list", "is_fresh(result)")],
+    split=[{"field_types": {"self.notes": "[" + ",".join(["Note"] * k) + "]"}} for k in range(0, 4)], split_is_domain=True,
+    notes="domain: containers of 0..3 notes with arbitrary (also equal) names", properties=["C12"], battery="nc_only")
